@@ -5,10 +5,11 @@
 // inlinable no-op, so the shipped binary is unchanged.
 package verifhook
 
-func Acquire(owner any, kind string, obj any)  {}
-func Release(owner any, kind string, obj any)  {}
-func Point(owner any, name string)             {}
-func Fault(owner any, name string) error       { return nil }
-func Go(owner any, name string)                {}
-func Access(owner any, obj string, write bool) {}
-func Knob(name string, def int) int            { return def }
+func Acquire(owner any, kind string, obj any)           {}
+func Release(owner any, kind string, obj any)           {}
+func Point(owner any, name string)                      {}
+func Fault(owner any, name string) error                { return nil }
+func FaultOn(owner any, name string, subject any) error { return nil }
+func Go(owner any, name string)                         {}
+func Access(owner any, obj string, write bool)          {}
+func Knob(name string, def int) int                     { return def }
